@@ -15,6 +15,11 @@
 //	        combination of its conditions.  A program whose GC'd step list frees
 //	        a range that is still pointed at, but whose session agreed, goes to
 //	        the exposure search (expose.go).
+//	repr    input representations (repr.go): small programs on input TEXTS of any
+//	        sign and magnitude (negative beyond 64 bits, wider than the argument,
+//	        word boundaries, every notation, array texts longer than the array):
+//	        streaming garbler, streaming evaluator and whole circuit agree; an
+//	        input rejected by one mode only is a disagreement.
 //	replay  one program from a file: prints both outcomes.
 package main
 
@@ -31,7 +36,7 @@ import (
 
 func main() {
 	if len(os.Args) < 2 {
-		fmt.Fprintln(os.Stderr, "usage: c05 oracle|codec|replay [flags]")
+		fmt.Fprintln(os.Stderr, "usage: c05 oracle|codec|repr|replay [flags]")
 		os.Exit(2)
 	}
 	switch os.Args[1] {
@@ -39,6 +44,8 @@ func main() {
 		os.Exit(runOracle(os.Args[2:]))
 	case "codec":
 		os.Exit(runCodec(os.Args[2:]))
+	case "repr":
+		os.Exit(runRepr(os.Args[2:]))
 	case "replay":
 		os.Exit(runReplay(os.Args[2:]))
 	default:
